@@ -19,6 +19,7 @@ func init() {
 			"absence of the input where the stencil is narrower than the grid, len==|set| for the N-layer result, a in N(b) <=> b in N(a). Non-trivial = always (every case queries >= 4 stencils); distinct by (ID, list, layers).",
 		Assume: []string{"reference: ref.Shift (integer modular arithmetic)"},
 		N:      tierN(60_000, 2_000_000),
+		Batch:  func(t string) int64 { return tierN(60_000, 2_000_000)(t)/16 + 1 },
 		Floor:  tierN(1000, 10000),
 		Run:    runC08,
 	})
@@ -64,6 +65,44 @@ func wantStencil(ids []ref.ID, offs [][3]int64) map[string]struct{} {
 
 func runC08(c *core.Case) {
 	r := c.R
+	if r.P(0.02) { // consecutive neighbourhood queries on two IDs that collide under a common 32-bit string hash
+		pairs := hashCollisionPairs()
+		if len(pairs) > 0 {
+			p := pairs[r.Intn(len(pairs))]
+			if r.Bool() {
+				p[0], p[1] = p[1], p[0]
+			}
+			which := r.Intn(4)
+			c.Tag("hash-colliding-consecutive-ids")
+			c.NonTrivial()
+			c.KS(p[0], p[1])
+			c.KI(int64(which))
+			c.Desc = func() any { return map[string]any{"consecutive_ids": p, "query": which} }
+			for k := 0; k < 2; k++ {
+				id, _ := ref.ParseExt(p[k])
+				var got []string
+				var offs [][3]int64
+				switch which {
+				case 0:
+					got, offs = operated.Get6spatialIdsAdjacentToFaces(p[k]), stencil6()
+				case 1:
+					got, offs = operated.Get8spatialIdsAroundHorizontal(p[k]), stencil8()
+				case 2:
+					got, offs = operated.Get26spatialIdsAroundVoxel(p[k]), stencilBox(1, 1)
+				default:
+					got, _ = operated.GetNspatialIdsAroundVoxcels([]string{p[k]}, 1, 2)
+					offs = stencilBox(1, 2)
+				}
+				c.Call()
+				gs, _ := ref.SetOfExt(got)
+				if missing, extra, same := ref.SameSet(gs, wantStencil([]ref.ID{id}, offs)); !same {
+					c.Fail("stencil-set-after-colliding-id", nil, "neighbourhood query %d of %s right after the same query of %s: missing %v, unexpected %v", which, p[k], p[1-k], missing, extra)
+					return
+				}
+			}
+			return
+		}
+	}
 	var id ref.ID
 	if r.P(0.3) {
 		id = genID(r, 0, 3, 0, 35) // tiny grids: wrapped neighbours coincide
@@ -148,6 +187,10 @@ func runC08(c *core.Case) {
 			list = append(list, ref.Shift(id, r.Range(-2, 2), r.Range(-2, 2), r.Range(-2, 2))) // adjacent / overlapping neighbourhoods (wraps at the seam)
 		case 2:
 			list = append(list, ref.ID{H: id.H, X: n - 1 - id.X, Y: id.Y, V: id.V, F: id.F}) // mirrored column (seam straddling when id.X is 0 or n-1)
+		case 3: // same horizontal zoom, another vertical zoom, overlapping index neighbourhood (IDs that differ in vZoom only must stay distinct)
+			o := ref.Shift(id, r.Range(-1, 1), r.Range(-1, 1), r.Range(-2, 2))
+			o.V = clampI(id.V+r.Range(-8, 8), 0, 35)
+			list = append(list, o)
 		default:
 			far := genID(r, id.H, id.H, id.V, id.V)
 			list = append(list, far)
